@@ -282,6 +282,7 @@ def entry_point_problems(pms, fmt, obj, t1, tmpdir, main_variant=None):
                 os.rmdir(os.path.join(tmpdir, "rel-sub"))
             except OSError:
                 pass
+        probs.extend(_compose_entry_point(pms, fmt, t1, tc, tmpdir))
     except Exception as e:
         probs.append("entry points raised %s: %s" % (type(e).__name__, str(e)[:150]))
     finally:
@@ -290,3 +291,48 @@ def entry_point_problems(pms, fmt, obj, t1, tmpdir, main_variant=None):
         except OSError:
             pass
     return probs
+
+
+_COMPOSE_ACCESSOR = {"composeinfo": ("info", "composeinfo.json"), "images": ("images", "images.json"), "rpms": ("rpms", "rpms.json"),
+                     "modules": ("modules", "modules.json")}
+_compose_calls = [0]
+
+
+def _compose_entry_point(pms, fmt, t1, tc, tmpdir):
+    """The fourth way to read a manifest: productmd.compose.Compose(<dir>).<accessor>.  The directory is the SAME for every
+    case of a shard and the file is rewritten in place - every third call with a text of the same size whose modification
+    time is set back to that of the text read just before (what `rsync -t` / `cp -p` leave behind)."""
+    import os
+    import re
+    import shutil
+    if fmt not in _COMPOSE_ACCESSOR:
+        return []
+    acc, fname = _COMPOSE_ACCESSOR[fmt]
+    import productmd.compose
+    root = os.path.join(tmpdir, "compose-entry-%s" % fmt)
+    md = os.path.join(root, "compose", "metadata")
+    os.makedirs(md, exist_ok=True)
+    fpath = os.path.join(md, fname)
+    out = []
+    try:
+        with open(fpath, "w") as f:
+            f.write(t1)
+        got = getattr(productmd.compose.Compose(root), acc).dumps()
+        if got != tc:
+            out.append("Compose(dir).%s gives a different object than loads()" % acc)
+        _compose_calls[0] += 1
+        m = re.search(r'"respin": \d*?(\d)\b', t1)
+        if not out and m and _compose_calls[0] % 3 == 0:
+            st = os.stat(fpath)
+            twin = t1[:m.start(1)] + str((int(m.group(1)) + 1) % 10) + t1[m.end(1):]
+            with open(fpath, "r+") as f:
+                f.write(twin)
+            os.utime(fpath, ns=(st.st_atime_ns, st.st_mtime_ns))
+            want = new_object(pms, fmt)
+            want.loads(twin)
+            got = getattr(productmd.compose.Compose(root), acc).dumps()
+            if got != want.dumps():
+                out.append("Compose(dir).%s after the file was rewritten in place (same size, same mtime) does not give the file's content" % acc)
+    finally:
+        shutil.rmtree(root, ignore_errors=True)
+    return out
